@@ -82,7 +82,7 @@ def install(ex, db):
                 e.call_key(st['send_key'], [Ref(Cell(st['sender'])), other])
         e.call_closure(a[1], [Ref(M.deref_all_cell(a[0]))])
         return UNIT
-    ex.model(r'(tokio|zksync_concurrency)::sync::watch::Sender::<.*>::send_modify::<.*>', send_modify)
+    ex.model(r'(tokio|zksync_concurrency)::sync::watch::Sender::<.*>::send_modify(::<.*>)?', send_modify)
     ex.model(r'(tokio|zksync_concurrency)::sync::watch::Sender::<.*>::borrow', lambda e, n, a: coro.WatchRef(M.deref_all(a[0])))
     ex.model(r'<(tokio|zksync_concurrency)::sync::watch::Ref<.*> as std::ops::Deref>::deref', lambda e, n, a: Ref(M.deref_all(a[0]).watch.cell))
 
